@@ -16,6 +16,10 @@
 (* (points: x and y only - the documented XY projection), each pair once,  *)
 (* minus the leaf itself for self-collision; after Transform the same for  *)
 (* the image boxes, after UpdateBoxes for the new boxes.                   *)
+(* "All query boxes/points" includes UNBOUNDED ones: bounds -Infinity and   *)
+(* +Infinity are the sentinels NegInf/PosInf, strictly outside every finite *)
+(* coordinate of a case; whole space, half spaces, slabs, the empty default *)
+(* Box() (min=+inf, max=-inf: reports nothing) - section "unbounded".       *)
 (*                                                                         *)
 (* Modes (selected by INIT/NEXT/INVARIANT in the .cfg files):              *)
 (*   tree  : all sorted Morton multisets, TreeOK for several kInitialLength*)
@@ -174,7 +178,9 @@ OvP(b, p) == p[1] <= b[4] /\ p[1] >= b[1] /\ p[2] <= b[5] /\ p[2] >= b[2]
 (* THE PROPERTY's test, from its words: closed intervals overlap iff they    *)
 (* share a point (integer end points: iff they share an integer point)       *)
 Meets(a0, a1, b0, b1) == \E x \in a0..a1 : x \in b0..b1
-Overlap(q, b) == Meets(q[1], q[4], b[1], b[4]) /\ Meets(q[2], q[5], b[2], b[5]) /\ Meets(q[3], q[6], b[3], b[6])
+(* (sharing a point is symmetric: the bound variable ranges over the LEAF's      *)
+(* interval, which is always finite and short, the query's may be unbounded)     *)
+Overlap(q, b) == Meets(b[1], b[4], q[1], q[4]) /\ Meets(b[2], b[5], q[2], q[5]) /\ Meets(b[3], b[6], q[3], q[6])
 OverlapP(p, b) == p[1] \in b[1]..b[4] /\ p[2] \in b[2]..b[5]       \* projected in z
 
 (* axis-aligned transform: three rows <<source axis, scale, translation>>    *)
@@ -214,8 +220,11 @@ Walk(t, hit, self, qi, node, stack, out, deep) ==
      ELSE LET st == IF t1 /\ t2 THEN Append(stack, c2) ELSE stack
           IN Walk(t, hit, self, qi, IF t1 THEN c1 ELSE c2, st, o2, Max2(deep, Len(st)))
 
+(* "early exit for empty boxes": if (query.min.x == +infinity) return; - 99 is   *)
+(* PosInf of the section "unbounded" (ASSUMEd there)                             *)
 TravBox(t, nbx, q, self, qi) ==
-  Walk(t, TLCEval([nd \in 0..(2 * Len(t)) |-> Ov(nbx[nd], q)]), self, qi, kRoot, <<>>, <<>>, 0)
+  IF q[1] = 99 THEN [out |-> <<>>, deep |-> 0]
+  ELSE Walk(t, TLCEval([nd \in 0..(2 * Len(t)) |-> Ov(nbx[nd], q)]), self, qi, kRoot, <<>>, <<>>, 0)
 TravPt(t, nbx, p) ==
   Walk(t, TLCEval([nd \in 0..(2 * Len(t)) |-> OvP(nbx[nd], p)]), FALSE, 0, kRoot, <<>>, <<>>, 0)
 
@@ -269,6 +278,71 @@ XF == << << <<1, 1, 1>>,  <<2, 1, -2>>, <<3, 1, 3>> >>,       \* translation
          << <<1, 1, 0>>,  <<3, -1, 0>>, <<2, 1, 0>> >>,       \* rotate 90 about x
          << <<1, -1, 2>>, <<2, -1, 2>>, <<3, -1, 2>> >>,      \* point reflection through (1,1,1)
          << <<2, 1, 0>>,  <<1, 1, 0>>,  <<3, 1, 0>> >> >>     \* swap x and y (mirror)
+
+(* ======================= unbounded query boxes / points ================== *)
+(* -Infinity and +Infinity are modelled by two sentinels that lie strictly    *)
+(* outside every finite coordinate of a case (CaseFinite, checked by TLC on   *)
+(* every generated case).  Whether closed intervals share a point depends     *)
+(* only on the order of their end points, and the sentinels are ordered        *)
+(* against the finite lattice exactly as the infinities are against the reals, *)
+(* so Meets / Overlap / OverlapP above ARE the property's test for them:       *)
+(* [NegInf, c] is the half-line up to c, [NegInf, PosInf] the whole line,       *)
+(* [PosInf, NegInf] (the default Box()) contains no point at all.  The printed  *)
+(* cases carry the tokens "-Infinity" / "Infinity", which the driver maps to    *)
+(* the IEEE infinities.                                                         *)
+PosInf == 99
+NegInf == -99
+IsFin(v) == NegInf < v /\ v < PosInf
+SeqFinite(b) == \A k \in DOMAIN b : IsFin(b[k])
+Tok(v) == IF v = PosInf THEN "Infinity" ELSE IF v = NegInf THEN "-Infinity" ELSE v
+TokSeq(b) == [k \in DOMAIN b |-> Tok(b[k])]
+TokSeqs(bs) == [k \in DOMAIN bs |-> TokSeq(bs[k])]
+(* one axis of a query box.  kinds 0..3 contain points: 0 the whole line,      *)
+(* 1 the half-line up to c, 2 the half-line from c, 3 the finite [c, d];         *)
+(* kinds 4..6 contain no finite point: 4 the EMPTY interval of the default      *)
+(* Box() (min = +inf, max = -inf), 5 / 6 the degenerate interval at -inf / +inf  *)
+AxIv(kind, c, d) == CASE kind = 0 -> <<NegInf, PosInf>>
+                      [] kind = 1 -> <<NegInf, c>>
+                      [] kind = 2 -> <<c, PosInf>>
+                      [] kind = 3 -> <<c, d>>
+                      [] kind = 4 -> <<PosInf, NegInf>>
+                      [] kind = 5 -> <<NegInf, NegInf>>
+                      [] kind = 6 -> <<PosInf, PosInf>>
+UBox(kx, ky, kz, c) == MkBox(AxIv(kx, c[1], c[1] + c[4]), AxIv(ky, c[2], c[2] + c[4]), AxIv(kz, c[3], c[3] + c[4]))
+WholeSpace == UBox(0, 0, 0, <<0, 0, 0, 0>>)
+EmptyBox == UBox(4, 4, 4, <<0, 0, 0, 0>>)             \* Box(): min = +inf, max = -inf on every axis
+(* a "live" unbounded box: every axis of kind 0..3, e in 1..62 = all combinations *)
+(* but the whole space (0) and the finite box (63); finite bounds from            *)
+(* lo..lo+span-1 chosen by g                                                      *)
+LiveBox(e, g, lo, span) ==
+  UBox(Mod(e, 4), Mod(e \div 4, 4), e \div 16,
+       <<lo + Mod(g, span), lo + Mod(g \div 5, span), lo + Mod(g \div 25, span), Mod(g \div 125, 2)>>)
+(* a "dead" one: a live box with one axis replaced by a kind-4/5/6 interval      *)
+DeadBox(e, g, lo, span) ==
+  LET b == LiveBox(e, g, lo, span)
+      ax == Mod(g \div 7, 3) + 1
+      iv == AxIv(4 + Mod(g \div 3, 3), 0, 0)
+  IN [k \in 1..6 |-> IF k = ax THEN iv[1] ELSE IF k = ax + 3 THEN iv[2] ELSE b[k]]
+(* eight unbounded query boxes per case: whole space, the empty default box, four *)
+(* live and two dead ones, pseudo-randomly but reproducibly chosen by h           *)
+UQueries(h, lo, span) == [j \in 1..8 |->
+     LET g == Mod(h * 13 + j * 7919 + j * j * 31, 100003) IN
+     IF j = 1 THEN WholeSpace ELSE IF j = 2 THEN EmptyBox
+     ELSE IF j <= 6 THEN LiveBox(1 + Mod(g, 62), g \div 62, lo, span)
+     ELSE DeadBox(Mod(g, 63), g \div 63, lo, span)]
+(* points: z is projected away, so an infinite z changes nothing; an infinite x  *)
+(* or y lies in no finite interval                                               *)
+UPoints(h) == LET x == Mod(h, 3)  y == Mod(h \div 3, 3)
+              IN << <<x, y, IF Mod(h, 2) = 0 THEN PosInf ELSE NegInf>>, <<NegInf, y, 0>>, <<x, PosInf, PosInf>> >>
+UHasInf(b) == \E k \in DOMAIN b : ~IsFin(b[k])
+(* sanity of the family and of the oracle on it *)
+ASSUME /\ PosInf = 99 /\ NegInf = -PosInf
+       /\ \A e \in 0..62, g \in {0, 1, 7, 33, 124, 999} : UHasInf(LiveBox(e, g, 0, 3)) /\ UHasInf(DeadBox(e, g, -1, 5))
+       /\ \A e \in 0..62 : Overlap(LiveBox(e, 0, 0, 3), <<0,0,0,0,0,0>>) /\ ~Overlap(DeadBox(e, 5, 0, 3), <<0,0,0,2,2,2>>)
+       /\ Overlap(WholeSpace, <<0,0,0,0,0,0>>) /\ ~Overlap(EmptyBox, <<0,0,0,2,2,2>>)
+       /\ Overlap(<<NegInf, 1, 0, 0, PosInf, 0>>, <<0,0,0,2,1,2>>) /\ ~Overlap(<<NegInf, 2, 0, 0, PosInf, 0>>, <<0,0,0,2,1,2>>)
+       /\ ~Overlap(<<NegInf, NegInf, NegInf, PosInf, NegInf, PosInf>>, <<0,0,0,2,2,2>>)
+       /\ OverlapP(<<1, 1, PosInf>>, <<0,0,0,2,2,2>>) /\ ~OverlapP(<<NegInf, 1, 0>>, <<0,0,0,2,2,2>>)
 
 (* ======================= variables ======================================= *)
 VARIABLES cs,      \* the case (tree / leaf boxes / ...)
@@ -340,16 +414,22 @@ InitTrav == cs \in { [t |-> tr] : tr \in TreesOf(0) } /\ done = FALSE /\ NoThrea
 NextTrav == /\ ~done /\ done' = TRUE
             /\ \E b \in [1..NumLeaves(cs.t) -> { L1Box(0, k) : k \in 0..5 }] : cs' = [t |-> cs.t, lb |-> b]
             /\ UNCHANGED <<pc, at, cnt, bx, wr, rd>>
-TravPoints == << <<0,0,9>>, <<1,0,0>>, <<2,0,9>>, <<1,1,0>> >>
+TravPoints == << <<0,0,9>>, <<1,0,0>>, <<2,0,9>>, <<1,1,0>>, <<1,0,PosInf>>, <<NegInf,0,0>> >>
+(* unbounded queries for the 1-D family (boxes [a,b] x [0,0] x [0,0]): whole space, Box(), a half *)
+(* line in x, an orthant, an orthant missing y = 0, dead in y only (not seen by the early exit)    *)
+TravUnb == << WholeSpace, EmptyBox,
+              <<NegInf, 0, 0, 1, 0, 0>>, <<1, NegInf, 0, PosInf, PosInf, PosInf>>,
+              <<2, 1, NegInf, PosInf, PosInf, PosInf>>, <<NegInf, PosInf, NegInf, PosInf, NegInf, PosInf>> >>
+TravQs == FamQueries("L1x", 0) \o TravUnb
 (* Level 1: plain queries on every tree, mirrored (XF[2]) for <= 3 leaves;        *)
 (* Level 2: mirrored and permuted/scaled (XF[5]) transforms for <= 4 leaves         *)
 TravInv == done =>
-           /\ QueriesOK(cs.t, cs.lb, FamQueries("L1x", 0), TravPoints)
+           /\ QueriesOK(cs.t, cs.lb, TravQs, TravPoints)
            /\ (NumLeaves(cs.t) <= 3 \/ (Level >= 2 /\ NumLeaves(cs.t) <= 4)) =>
-                  XfQueriesOK(cs.t, cs.lb, FamQueries("L1x", 0), TravPoints, XF[2])
+                  XfQueriesOK(cs.t, cs.lb, TravQs, TravPoints, XF[2])
            /\ (Level >= 2 /\ NumLeaves(cs.t) <= 4) =>
-                  XfQueriesOK(cs.t, cs.lb, [k \in 1..8 |-> XfB(FamQueries("L1x", 0)[k], XF[5])],
-                              [k \in 1..4 |-> XfPoint(TravPoints[k], XF[5])], XF[5])
+                  XfQueriesOK(cs.t, cs.lb, [k \in 1..8 |-> XfB(FamQueries("L1x", 0)[k], XF[5])] \o TravUnb,
+                              [k \in 1..4 |-> XfPoint(TravPoints[k], XF[5])] \o SubSeq(TravPoints, 5, 6), XF[5])
 
 (* ----------------------- mode gen ---------------------------------------- *)
 RECURSIVE HashM(_, _)
@@ -375,31 +455,50 @@ GenCase(m, v) ==
       lb2 |-> [l \in 1..n |-> Pick(f, m, IF v = 0 THEN 2 ELSE v, l - 1, 1)],
       qs |-> qs, ps |-> LatPoints, T |-> T,
       qsT |-> [k \in 1..Len(qs) |-> XfB(qs[k], T)] \o SubSeq(qs, 1, 2),        \* the images of the queries + two untransformed
-      psT |-> [k \in 1..9 |-> XfPoint(LatPoints[k], T)] \o SubSeq(LatPoints, 4, 5)]
+      psT |-> [k \in 1..9 |-> XfPoint(LatPoints[k], T)] \o SubSeq(LatPoints, 4, 5),
+      \* unbounded queries (asked as they are in every phase): finite bounds on the lattice 0..2
+      qu |-> UQueries(h + v, 0, 3), pu |-> UPoints(h + v)]
 ExpandGen(c) == GenCase(c.m, c.v)
+(* the queries of a case: the finite ones followed by the unbounded ones (printed with tokens) *)
+AllQ(c) == c.qs \o c.qu
+AllQT(c) == c.qsT \o c.qu
+AllP(c) == c.ps \o c.pu
+AllPT(c) == c.psT \o c.pu
+(* the sentinels are outside every finite coordinate of the case *)
+CaseFinite(c) ==
+  /\ \A l \in DOMAIN c.lb : SeqFinite(c.lb[l]) /\ SeqFinite(c.lb2[l]) /\ SeqFinite(ImageBox(c.lb[l], c.T))
+  /\ \A k \in DOMAIN c.qs : SeqFinite(c.qs[k])
+  /\ \A k \in DOMAIN c.qsT : SeqFinite(c.qsT[k])
+  /\ \A k \in DOMAIN c.ps : SeqFinite(c.ps[k])
+  /\ \A k \in DOMAIN c.psT : SeqFinite(c.psT[k])
+  /\ \A k \in DOMAIN c.qu : UHasInf(c.qu[k])
+  /\ \A k \in DOMAIN c.pu : UHasInf(c.pu[k])
 GenJson(c) ==
-  LET lbT == [l \in DOMAIN c.lb |-> ImageBox(c.lb[l], c.T)] IN
+  LET lbT == [l \in DOMAIN c.lb |-> ImageBox(c.lb[l], c.T)]
+      qs == AllQ(c)  qsT == AllQT(c)  ps == AllP(c)  psT == AllPT(c) IN
   [kind |-> "bvh3", n |-> Len(c.m), fam |-> c.fam, v |-> c.v, morton |-> c.m, boxes |-> c.lb,
    tree |-> Shape(c.t),
-   qboxes |-> c.qs, qpoints |-> c.ps,
-   expBox |-> [k \in DOMAIN c.qs |-> Want(c.lb, c.qs[k])],
-   expPoint |-> [k \in DOMAIN c.ps |-> WantP(c.lb, c.ps[k])],
+   nfinite |-> <<Len(c.qs), Len(c.ps), Len(c.qsT), Len(c.psT)>>,
+   qboxes |-> TokSeqs(qs), qpoints |-> TokSeqs(ps),
+   expBox |-> [k \in DOMAIN qs |-> Want(c.lb, qs[k])],
+   expPoint |-> [k \in DOMAIN ps |-> WantP(c.lb, ps[k])],
    expSelf |-> [l \in DOMAIN c.lb |-> WantSelf(c.lb, l - 1)],
-   xf |-> c.T, boxesT |-> lbT, qboxesT |-> c.qsT, qpointsT |-> c.psT,
-   expBoxT |-> [k \in DOMAIN c.qsT |-> Want(lbT, c.qsT[k])],
-   expPointT |-> [k \in DOMAIN c.psT |-> WantP(lbT, c.psT[k])],
+   xf |-> c.T, boxesT |-> lbT, qboxesT |-> TokSeqs(qsT), qpointsT |-> TokSeqs(psT),
+   expBoxT |-> [k \in DOMAIN qsT |-> Want(lbT, qsT[k])],
+   expPointT |-> [k \in DOMAIN psT |-> WantP(lbT, psT[k])],
    expSelfT |-> [l \in DOMAIN lbT |-> WantSelf(lbT, l - 1)],
    boxes2 |-> c.lb2,
-   expBox2 |-> [k \in DOMAIN c.qs |-> Want(c.lb2, c.qs[k])],
-   expPoint2 |-> [k \in DOMAIN c.ps |-> WantP(c.lb2, c.ps[k])],
+   expBox2 |-> [k \in DOMAIN qs |-> Want(c.lb2, qs[k])],
+   expPoint2 |-> [k \in DOMAIN ps |-> WantP(c.lb2, ps[k])],
    expSelf2 |-> [l \in DOMAIN c.lb2 |-> WantSelf(c.lb2, l - 1)]]
 InitGen == cs \in { [m |-> m, v |-> v] : m \in Multisets(0), v \in Variants } /\ done = FALSE /\ NoThreads
 NextGen == Step(ExpandGen, GenJson)
 GenInv == done =>
           /\ TreeOK(cs.t)
-          /\ Level >= 2 => /\ QueriesOK(cs.t, cs.lb, cs.qs, cs.ps)
-                           /\ QueriesOK(cs.t, cs.lb2, cs.qs, cs.ps)
-                           /\ XfQueriesOK(cs.t, cs.lb, cs.qsT, cs.psT, cs.T)
+          /\ CaseFinite(cs)
+          /\ Level >= 2 => /\ QueriesOK(cs.t, cs.lb, AllQ(cs), AllP(cs))
+                           /\ QueriesOK(cs.t, cs.lb2, AllQ(cs), AllP(cs))
+                           /\ XfQueriesOK(cs.t, cs.lb, AllQT(cs), AllPT(cs), cs.T)
 
 (* ----------------------- mode big ---------------------------------------- *)
 (* > kInitialLength leaves; codes (i*A) div B are sorted with long runs of    *)
@@ -419,31 +518,35 @@ BigCase(n, p) ==
       lb2 |-> [l \in 1..n |-> BigBoxAt(n - l, p + 1)],
       qs |-> BigQueries, ps |-> BigPoints, T |-> T,
       qsT |-> BigQueries \o [k \in 1..12 |-> XfB(BigQueries[k], T)],
-      psT |-> BigPoints \o [k \in 1..8 |-> XfPoint(BigPoints[k], T)]]
+      psT |-> BigPoints \o [k \in 1..8 |-> XfPoint(BigPoints[k], T)],
+      qu |-> UQueries(n + p, 0, 6), pu |-> UPoints(n + p)]
 ExpandBig(c) == BigCase(c.n, Mod(c.n + c.j, Len(BigPatterns)) + 1)
 BigJson(c) ==
   LET lbT == [l \in DOMAIN c.lb |-> ImageBox(c.lb[l], c.T)]
+      qs == AllQ(c)  qsT == AllQT(c)  ps == AllP(c)  psT == AllPT(c)
       self == Len(c.m) <= 160 IN
   [kind |-> "bvh3", n |-> Len(c.m), fam |-> c.fam, v |-> c.v, morton |-> c.m, boxes |-> c.lb,
    tree |-> Shape(c.t),
-   qboxes |-> c.qs, qpoints |-> c.ps,
-   expBox |-> [k \in DOMAIN c.qs |-> Want(c.lb, c.qs[k])],
-   expPoint |-> [k \in DOMAIN c.ps |-> WantP(c.lb, c.ps[k])],
+   nfinite |-> <<Len(c.qs), Len(c.ps), Len(c.qsT), Len(c.psT)>>,
+   qboxes |-> TokSeqs(qs), qpoints |-> TokSeqs(ps),
+   expBox |-> [k \in DOMAIN qs |-> Want(c.lb, qs[k])],
+   expPoint |-> [k \in DOMAIN ps |-> WantP(c.lb, ps[k])],
    expSelf |-> IF self THEN [l \in DOMAIN c.lb |-> WantSelf(c.lb, l - 1)] ELSE <<>>,
-   xf |-> c.T, boxesT |-> lbT, qboxesT |-> c.qsT, qpointsT |-> c.psT,
-   expBoxT |-> [k \in DOMAIN c.qsT |-> Want(lbT, c.qsT[k])],
-   expPointT |-> [k \in DOMAIN c.psT |-> WantP(lbT, c.psT[k])],
+   xf |-> c.T, boxesT |-> lbT, qboxesT |-> TokSeqs(qsT), qpointsT |-> TokSeqs(psT),
+   expBoxT |-> [k \in DOMAIN qsT |-> Want(lbT, qsT[k])],
+   expPointT |-> [k \in DOMAIN psT |-> WantP(lbT, psT[k])],
    expSelfT |-> <<>>,
    boxes2 |-> c.lb2,
-   expBox2 |-> [k \in DOMAIN c.qs |-> Want(c.lb2, c.qs[k])],
-   expPoint2 |-> [k \in DOMAIN c.ps |-> WantP(c.lb2, c.ps[k])],
+   expBox2 |-> [k \in DOMAIN qs |-> Want(c.lb2, qs[k])],
+   expPoint2 |-> [k \in DOMAIN ps |-> WantP(c.lb2, ps[k])],
    expSelf2 |-> <<>>]
 InitBig == cs \in { [n |-> n, j |-> j] : n \in NS, j \in Variants } /\ done = FALSE /\ NoThreads
 NextBig == Step(ExpandBig, BigJson)
 BigInv == done => LET nbx == NodeBoxes(cs.t, cs.lb) IN
           /\ TreeOK(cs.t)
-          /\ \A k \in DOMAIN cs.qs : Exact(TravBox(cs.t, nbx, cs.qs[k], FALSE, 0), Want(cs.lb, cs.qs[k]))
-          /\ \A k \in DOMAIN cs.ps : Exact(TravPt(cs.t, nbx, cs.ps[k]), WantP(cs.lb, cs.ps[k]))
+          /\ CaseFinite(cs)
+          /\ \A k \in DOMAIN AllQ(cs) : Exact(TravBox(cs.t, nbx, AllQ(cs)[k], FALSE, 0), Want(cs.lb, AllQ(cs)[k]))
+          /\ \A k \in DOMAIN AllP(cs) : Exact(TravPt(cs.t, nbx, AllP(cs)[k]), WantP(cs.lb, AllP(cs)[k]))
 
 (* ----------------------- mode gen2d -------------------------------------- *)
 (* rectangles <<x0,y0,x1,y1>>; the edge-pair broad phase must return exactly  *)
@@ -465,8 +568,16 @@ QRects == [k \in 1..102 |-> IF k = 101 THEN <<-1,-1,4,4>> ELSE IF k = 102 THEN <
                             ELSE LET ix == Iv3[Mod(k - 1, 10) + 1] iy == Iv3[(k - 1) \div 10 + 1] IN <<ix[1], iy[1], ix[2], iy[2]>>]
 PointSets(n) == { [i \in 1..n |-> <<Mod(i * a + (i * i) \div c + b, 4), Mod(i * b + i \div 2 + a * c, 4)>>] :
                   a \in 1..3, b \in 0..3, c \in {2, 5} }
-PointJson(ps) == [kind |-> "points", n |-> Len(ps), points |-> ps, queries |-> QRects,
-                  exp |-> [k \in DOMAIN QRects |-> { i - 1 : i \in { j \in DOMAIN ps : RContains(QRects[k], ps[j]) } }]]
+(* unbounded query rectangles: whole plane, the empty default Rect(), half planes, quadrants, a   *)
+(* strip, dead in y only / at +inf in x                                                           *)
+QRectsU == << <<NegInf, NegInf, PosInf, PosInf>>, <<PosInf, PosInf, NegInf, NegInf>>,
+              <<NegInf, NegInf, 1, PosInf>>, <<2, NegInf, PosInf, PosInf>>, <<NegInf, 1, PosInf, PosInf>>,
+              <<NegInf, NegInf, PosInf, 0>>, <<1, 1, PosInf, PosInf>>, <<NegInf, 2, 2, PosInf>>,
+              <<NegInf, 1, PosInf, 2>>, <<3, NegInf, 3, PosInf>>,
+              <<NegInf, PosInf, PosInf, NegInf>>, <<PosInf, 0, PosInf, 3>>, <<NegInf, 0, NegInf, 3>> >>
+QRectsAll == QRects \o QRectsU
+PointJson(ps) == [kind |-> "points", n |-> Len(ps), points |-> ps, queries |-> TokSeqs(QRectsAll), nfinite |-> Len(QRects),
+                  exp |-> [k \in DOMAIN QRectsAll |-> { i - 1 : i \in { j \in DOMAIN ps : RContains(QRectsAll[k], ps[j]) } }]]
 Cases2D(dummy) == UNION { { [kind |-> "rects", d |-> rs] : rs \in RectSets(n) } : n \in NS \cap 2..50 }
                   \cup UNION { { [kind |-> "points", d |-> ps] : ps \in PointSets(n - 100) } : n \in NS \cap 100..400 }
 Json2D(c) == IF c.kind = "rects" THEN RectJson(c.d) ELSE PointJson(c.d)
@@ -477,5 +588,7 @@ Next2D == Step(Same, Json2D)
 (* contains its corners                                                         *)
 Inv2D == done => IF cs.kind = "rects"
          THEN \A i \in DOMAIN cs.d, j \in DOMAIN cs.d : ROverlap(cs.d[i], cs.d[j]) = ROverlap(cs.d[j], cs.d[i]) /\ ROverlap(cs.d[i], cs.d[i])
-         ELSE \A k \in DOMAIN QRects : RContains(QRects[k], <<QRects[k][1], QRects[k][2]>>)
+         ELSE /\ \A k \in DOMAIN QRects : RContains(QRects[k], <<QRects[k][1], QRects[k][2]>>) /\ SeqFinite(QRects[k])
+              /\ \A j \in DOMAIN cs.d : SeqFinite(cs.d[j]) /\ RContains(QRectsU[1], cs.d[j]) /\ ~RContains(QRectsU[2], cs.d[j])
+              /\ \A k \in DOMAIN QRectsU : UHasInf(QRectsU[k])
 =============================================================================
